@@ -13,6 +13,11 @@ import (
 
 func init() {
 	register("flow", family{gen: func(r *rand.Rand, tier string) *sx.Node { return genRunnerCase(r, flowCfg, opsCfg{steps: 40, extraAfterEnd: 2}) }, run: runRunnerCase})
+	endCfg := flowCfg
+	endCfg.wStop, endCfg.wJump, endCfg.maxNodes = 4, 1, 2
+	register("endcalls", family{gen: func(r *rand.Rand, tier string) *sx.Node {
+		return genRunnerCase(r, endCfg, opsCfg{steps: 30, extraAfterEnd: 3 + r.Intn(4)})
+	}, run: runRunnerCase})
 }
 
 // ownSeedToInt64 is the harness's own reading of the seed rule (base 36 over [0-9a-z], int64 wrap).
